@@ -261,6 +261,9 @@ class NDNApp:
                 return
             if lp_pkt.nack is not None:
                 nack_reason = lp_pkt.nack.nack_reason
+                if nack_reason is None:
+                    # A Nack header without a NackReason element means reason None
+                    nack_reason = enc.NackReason.NONE
             else:
                 nack_reason = None
             pit_token = lp_pkt.pit_token
